@@ -52,8 +52,9 @@ func checkSpecs() map[string]CheckSpec {
 	}, Explanation: "Clone of every cloneable type on arbitrary well-formed geometries; heap-object identity decides sharing."})
 	X := DomainX
 	add(CheckSpec{Property: "C20", Harnesses: []HarnessSpec{
-		{Func: "HC20_Simplify", Domain: X, Covers: []string{"end"}},
-		{Func: "HC20_Idempotent", Domain: X, Covers: []string{"end"}},
+		{Func: "HC20_Distance", Pkg: "xy", Domain: X, RealInputs: true, Covers: []string{"end"}},
+		{Func: "HC20_Worker", Domain: X, RealInputs: true, Covers: []string{"end"}},
+		{Func: "HC20_Simplify", Domain: X, RealInputs: true, Covers: []string{"end"}},
 	}, Explanation: "xy.SimplifyFlatCoords executed symbolically on integer-grid points with a symbolic threshold; the interval stack, mask and distance function run for real; distances are exact reals.",
 		Outside: []string{"more points than the bound", "ordinates off the integer grid / rounding inside distanceFromSegmentSquared near ties (the division is followed in exact real arithmetic)"}})
 	return m
